@@ -215,6 +215,15 @@ fn gen_impl_delegation_trait_defs(
                 .retain(|attr| !attr.path().is_ident("inline") && !attr.path().is_ident("cold"));
         }
     }
+    // What the user's trait asks of its implementor it asks of `Impl<T>`, and the impl for `Impl<T>`
+    // says so; the type that an impl block is written for is not the implementor.
+    let self_ident = syn::Ident::new("Self", proc_macro2::Span::call_site());
+    trait_copy.generics.where_predicates = std::mem::take(&mut trait_copy.generics.where_predicates)
+        .into_iter()
+        .filter(|predicate| {
+            !crate::analyze_generics::mentions_ident(predicate.to_token_stream(), &self_ident)
+        })
+        .collect();
 
     let no_mock_opts = Opts {
         mock_api: None,
